@@ -40,7 +40,8 @@ def ptc(dur, adj, big=False):
             'Production Tax Credit Duration': str(dur), 'Production Tax Credit Inflation Adjusted': str(adj)}
 
 
-STRUCT = [CARBON, ADDON_GAIN, {**ADDON_GAIN, **CARBON}, {'Maximum Drawdown': '0.05'},
+STRUCT = [CARBON, ADDON_GAIN, {**ADDON_GAIN, **CARBON}, {**ADDON_GAIN, 'Do S-DAC-GT Calculations': 'True', 'S-DAC-GT CAPEX': '1400', 'S-DAC-GT OPEX': '130'},
+          {'Maximum Drawdown': '0.05'},
           {'Total Capital Cost': '5', 'Total O&M Cost': '0.1', 'Starting Electricity Sale Price': '0.3',
            'Ending Electricity Sale Price': '0.3', 'Starting Heat Sale Price': '0.2', 'Ending Heat Sale Price': '0.2',
            'Starting Cooling Sale Price': '0.2', 'Ending Cooling Sale Price': '0.2'}]   # pays back quickly
